@@ -9,6 +9,7 @@ import (
 	"fmt"
 	"hash/fnv"
 	"os"
+	"runtime"
 	"sort"
 	"strconv"
 	"strings"
@@ -285,8 +286,21 @@ func batch(t *testing.T, p *Prop, outPath string) {
 	fingers := map[uint64]bool{}
 	allFingers := map[uint64]bool{}
 	states := map[uint64]bool{}
+	memTrace := os.Getenv("VERIF_MEMTRACE") != ""
 	record := func(idx int, seed uint64, c interface{}, o *Outcome) bool {
 		res.Runs++
+		if memTrace {
+			// debugging aid: which cases leave a large heap behind
+			var ms runtime.MemStats
+			runtime.ReadMemStats(&ms)
+			if ms.HeapAlloc > 300<<20 {
+				b, _ := json.Marshal(c)
+				if len(b) > 300 {
+					b = b[:300]
+				}
+				fmt.Printf("MEMTRACE idx=%d heap=%dMiB sys=%dMiB case=%s\n", idx, ms.HeapAlloc>>20, ms.Sys>>20, b)
+			}
+		}
 		res.Steps += int64(o.Steps)
 		res.SimTimeNs += int64(o.SimTime)
 		for k, v := range o.Faults {
@@ -508,16 +522,16 @@ func shrink(t *testing.T, p *Prop, file, outPath string) {
 // Sched is the schedule part of every case; it is embedded in the case JSON so that a
 // replay is a pure function of the file and the code.
 type Sched struct {
-	Seed     uint64  `json:"seed"`
-	Strategy int     `json:"strategy"`
-	Stick    float64 `json:"stick"`
-	PCTDepth int     `json:"pct_depth,omitempty"`
-	PCTSpan  int     `json:"pct_span,omitempty"`
-	TimeJump float64 `json:"time_jump,omitempty"`
-	TimeJumpMaxUs int `json:"time_jump_max_us,omitempty"`
-	SiteProb float64 `json:"site_prob,omitempty"`
-	MaxSteps int     `json:"max_steps"`
-	PoolMode int     `json:"pool_mode"`
+	Seed          uint64  `json:"seed"`
+	Strategy      int     `json:"strategy"`
+	Stick         float64 `json:"stick"`
+	PCTDepth      int     `json:"pct_depth,omitempty"`
+	PCTSpan       int     `json:"pct_span,omitempty"`
+	TimeJump      float64 `json:"time_jump,omitempty"`
+	TimeJumpMaxUs int     `json:"time_jump_max_us,omitempty"`
+	SiteProb      float64 `json:"site_prob,omitempty"`
+	MaxSteps      int     `json:"max_steps"`
+	PoolMode      int     `json:"pool_mode"`
 }
 
 // GenSched draws a schedule configuration (swarm style).
